@@ -49,6 +49,9 @@ def pcgrad(index, ctx):
     from ..normalize import canonical
 
     fn = canonical(fi, index)
+    from ..normalize import unflatten_schedules
+
+    fn = unflatten_schedules(fn)  # one loop over a precomputed list of (i, j) pairs is the loop nest the list enumerates
     # the conflict test: an If whose test compares a value with 0 (any orientation / negation)
     from ..guards import implies, oriented
 
@@ -98,7 +101,8 @@ def pcgrad(index, ctx):
     upd = [s for b in (conflict_body or []) for s in ast.walk(b) if isinstance(s, ast.AugAssign) and isinstance(s.target, ast.Subscript)]
     if conflict_body is not None and len(upd) == 1:
         u = upd[0]
-        idx_ok = jvar in names_read(u.target.slice)
+        sl_ = norm_text(u.target.slice).replace(" ", "").strip("()")
+        idx_ok = sl_ == jvar or sl_ == f"{ivar},{jvar}"  # w[j] on the row's own vector, or W[i, j] on the matrix whose row i is that vector
         val = u.value
 
         def squared_norm_of_j(e):
@@ -128,7 +132,15 @@ def pcgrad(index, ctx):
     ctx.require(not brk, "R1", "PCGrad: every other row is visited", "no break in the projection loop",
                 "the loop over the other rows contains `break`: rows after it in the drawn order are never projected off", _loc(fi, brk[0]) if brk else fi.loc())
     conts = [n for n in ast.walk(inner) if isinstance(n, ast.If) and any(isinstance(x, ast.Continue) for x in n.body)]
-    okc = all(isinstance(c.test, ast.Compare) and isinstance(c.test.ops[0], ast.Eq) and {jvar, ivar} <= names_read(c.test) for c in conts)
+    def is_self_test(t):
+        """`j == i` (also spelt `not (j != i)`)."""
+        neg = False
+        while isinstance(t, ast.UnaryOp) and isinstance(t.op, ast.Not):
+            t, neg = t.operand, not neg
+        return isinstance(t, ast.Compare) and len(t.ops) == 1 and isinstance(t.ops[0], ast.NotEq if neg else ast.Eq) and {jvar, ivar} <= names_read(t) \
+            and all(isinstance(x, ast.Name) for x in (t.left, t.comparators[0]))
+
+    okc = all(is_self_test(c.test) for c in conts)
     stray = [n for n in ast.walk(inner) if isinstance(n, ast.Continue)]
     ctx.require(okc and len(stray) == len(conts), "R1", "PCGrad: only the row itself is skipped", "continue only when j == i",
                 "a `continue` in the projection loop is not guarded by `j == i` alone", _loc(fi, conts[0]) if conts else fi.loc())
@@ -159,6 +171,17 @@ def pcgrad(index, ctx):
     acc = [s for s in after if (isinstance(s, ast.AugAssign) and isinstance(s.op, ast.Add) and set(carried) & names_read(s.value)) or
            (isinstance(s, ast.Assign) and isinstance(s.value, ast.BinOp) and isinstance(s.value.op, ast.Add) and set(carried) & names_read(s.value)
             and base_name(s.targets[0]) in names_read(s.value))]
+    if not acc and not after:
+        # the projected vectors kept as the rows of one matrix, summed once all rows are done: `W.sum(dim=0)` after the loops
+        body_ = fn.body
+        if outer in body_:
+            for s_ in body_[body_.index(outer) + 1:]:
+                for c_ in ast.walk(s_):
+                    if isinstance(c_, ast.Call) and ((isinstance(c_.func, ast.Attribute) and c_.func.attr == "sum" and base_name(c_.func.value) in carried) or
+                                                      (norm_text(c_.func) == "torch.sum" and c_.args and base_name(c_.args[0]) in carried)):
+                        d_ = next((k_.value for k_ in c_.keywords if k_.arg in ("dim", "axis")), c_.args[-1] if (c_.args and isinstance(c_.args[-1], ast.Constant)) else None)
+                        if isinstance(d_, ast.Constant) and d_.value == 0:
+                            acc = [s_]
     ctx.require(len(acc) == 1, "R1", "PCGrad: projected vectors are summed", "accumulation after the projection loop",
                 "the projected weight vector is not accumulated exactly once after the projection loop", _loc(fi, outer))
     rnd = [n for n in ast.walk(outer) if isinstance(n, ast.Call) and norm_text(n.func).endswith("randperm")]
@@ -172,7 +195,7 @@ def pcgrad(index, ctx):
             src = src.args[-1]
         binds = [a for a in ast.walk(fn) if isinstance(a, ast.Assign) and len(a.targets) == 1 and isinstance(a.targets[0], ast.Name) and isinstance(src, ast.Name) and a.targets[0].id == src.id]
         if len(binds) == 1 and isinstance(binds[0].value, ast.ListComp) and len(binds[0].value.generators) == 1 and not binds[0].value.generators[0].ifs \
-                and isinstance(binds[0].value.elt, ast.Call) and norm_text(binds[0].value.elt.func).endswith("randperm") \
+                and sum(1 for x_ in ast.walk(binds[0].value.elt) if isinstance(x_, ast.Call) and norm_text(x_.func).endswith("randperm")) == 1 \
                 and isinstance(binds[0].value.generators[0].iter, ast.Call) and norm_text(binds[0].value.generators[0].iter.func) == "range":
             elem_names = {x.id for x in ast.walk(outer.target) if isinstance(x, ast.Name)} - {ivar}
             per_row = bool(elem_names & names_read(inner.iter))
